@@ -141,6 +141,15 @@ func garblePath(t *sim.Tape, p *sdcpb.Path) (*sdcpb.Path, string) {
 	}
 }
 
+// keylessOf returns the schema path (names joined by '/') of an element of a reply document.
+func keylessOf(e, root *etree.Element) string {
+	names := []string{}
+	for cur := e; cur != nil && cur != root; cur = cur.Parent() {
+		names = append([]string{cur.Tag}, names...)
+	}
+	return strings.Join(names, "/")
+}
+
 func trimStackC20() string {
 	lines := strings.Split(string(debug.Stack()), "\n")
 	if len(lines) > 30 {
@@ -343,6 +352,33 @@ func runC20(rc *sim.RunCtx) {
 				}
 			}
 			e.SetText([]string{lex, "", "notanumber", "99999999999999999999999"}[t.Choose(4)])
+			if t.Bool(1, 6) {
+				// the reply stops at a list entry: only (some of) its key leaves, nothing below
+				for cur := e; cur != nil && cur != root; cur = cur.Parent() {
+					if n := w.SI.Nodes[keylessOf(cur, root)]; n != nil && n.Kind == world.KList {
+						for _, c := range cur.ChildElements() {
+							isKey := false
+							for _, k := range n.Keys {
+								if c.Tag == k {
+									isKey = true
+								}
+							}
+							if !isKey {
+								cur.RemoveChild(c)
+							}
+						}
+						rc.Probe("netconf-reply-entry-with-keys-only")
+						if len(n.Keys) > 1 && t.Bool(1, 2) {
+							// ... and the last key of a multi-key list is missing
+							if ke := cur.SelectElement(n.Keys[len(n.Keys)-1]); ke != nil {
+								cur.RemoveChild(ke)
+								rc.Probe("netconf-reply-entry-partially-keyed")
+							}
+						}
+						break
+					}
+				}
+			}
 			if t.Bool(1, 4) {
 				e.CreateElement("unexpected").SetText("x")
 			}
@@ -359,7 +395,12 @@ func runC20(rc *sim.RunCtx) {
 			tgt := target.VerifNewNCTarget("dev", cfg, w.DS.VerifSchemaClientBound(), drv)
 			ds, _ := doc.WriteToString()
 			rc.Logf("CALL %s %s", desc, ds)
-			_, callErr = tgt.Get(w.Ctx, &sdcpb.GetDataRequest{Path: []*sdcpb.Path{base.Path}, Datastore: &sdcpb.DataStore{Type: sdcpb.Type_MAIN}})
+			reqPath := base.Path
+			if t.Bool(1, 2) && len(base.Path.GetElem()) > 0 {
+				// ask for the whole top-level node (a request path through a multi-key list does not get as far as the reply)
+				reqPath = &sdcpb.Path{Elem: []*sdcpb.PathElem{{Name: base.Path.GetElem()[0].GetName()}}}
+			}
+			_, callErr = tgt.Get(w.Ctx, &sdcpb.GetDataRequest{Path: []*sdcpb.Path{reqPath}, Datastore: &sdcpb.DataStore{Type: sdcpb.Type_MAIN}})
 		}
 		rc.Step()
 		rc.NonTrivial()
